@@ -1,7 +1,7 @@
 (** * Api/PersistedQueryCheck.v — C18 correspondence: decode a case, run model + spec oracle,
     compare with what the implementation did.  Executable only (extracted / vm_compute). *)
 From Coq Require Import List NArith ZArith Bool String.
-From ApiFu Require Import Base.Sexp Api.PersistedQueryModel Api.PersistedQuerySpec.
+From ApiFu Require Import Base.Sexp Api.PersistedQueryModel Api.PersistedQuerySpec Api.Sha256.
 Import ListNotations.
 Open Scope string_scope.
 
@@ -166,6 +166,13 @@ Definition classes (rs : list request) (spec : list action) : list string :=
   (if reg then ["register"] else []) ++
   (if hit || (miss && reg) then ["nontrivial"] else []).
 
+(** The digest table comes from the harness (Go's crypto/sha256).  Every entry the model, the Spec
+    or the oracle can consult in this case — the texts of the history and the texts the
+    implementation stored — is recomputed with the Gallina SHA-256 of [Api/Sha256.v]. *)
+Definition table_is_sha256 (T : tbl) (used : list bytes) : bool :=
+  forallb (fun e => negb (existsb (bytes_eqb (fst (fst e))) used)
+                    || bytes_eqb (sha256 (fst (fst e))) (snd (fst e))) T.
+
 Definition check (c : sexp) : sexp :=
   match tagged "case" c with
   | Some l =>
@@ -175,6 +182,8 @@ Definition check (c : sexp) : sexp :=
       | Some T, Some rs, Some obss =>
           if negb (forallb (fun e => N.eqb (N.of_nat (List.length (snd (fst e)))) 32) T) then v_bad "sha-length"
           else if negb (forallb (fun r => tbl_has T (rq_query r)) rs && tbl_has T []) then v_bad "sha-table-incomplete"
+          else if negb (table_is_sha256 T ([] :: map rq_query rs ++ map fst (flat_map (fun o => puts (o_calls o)) obss)))
+               then v_bad "sha-table-not-sha256"
           else
             let sha := tbl_sha T in
             let spec := spec_run sha [] rs in
